@@ -102,6 +102,15 @@ func (c chunked) Write(p []byte) (int, error) {
 	bs := c.Hash.BlockSize()
 	field := c.Hash.Size() == bs && bs >= 32 && bs <= 96 // one field element in, one out
 	switch {
+	case field && len(p) < bs:
+		// documented for the field hashes: a short input stands for the element it is the left-padded
+		// form of. The model pads by itself and hands over a whole block
+		pp := make([]byte, bs)
+		copy(pp[bs-len(p):], p)
+		if _, err := c.Hash.Write(pp); err != nil {
+			return 0, err
+		}
+		return len(p), nil
 	case field && len(p) > bs && len(p)%bs == 0:
 		for k := 0; k < len(p); k += bs {
 			if _, err := c.Hash.Write(p[k : k+bs]); err != nil {
@@ -399,7 +408,12 @@ func main() {
 				return []byte{}
 			}
 			if ctr%5 == 1 {
-				return []byte{byte(1 + ctr%200), byte(ctr % 7)}[:1+ctr%2]
+				lens := []int{1, 2, bs - 1, bs/2 + 1, bs - 16, bs - 9}
+				v := make([]byte, lens[(ctr/5)%len(lens)])
+				for i := range v {
+					v[i] = byte(1 + (ctr+3*i)%200)
+				}
+				return v
 			}
 			b := make([]byte, bs)
 			b[bs-2], b[bs-1] = byte((1000+ctr)>>8), byte(1000+ctr)
@@ -421,7 +435,8 @@ func main() {
 			}
 			return append(good, 0x01)
 		}
-		cfgs = append(cfgs, hcfg{o.label, o.newH, []string{"a", "bb", "gamma", "d"}, val, bad})
+		// names of every length regime below one block (the transcript writes them to the hash as they are)
+		cfgs = append(cfgs, hcfg{o.label, o.newH, []string{"a", strings.Repeat("b", bs-12), "gamma", strings.Repeat("d", bs-1)}, val, bad})
 		maxLen[o.label] = c.Pick(3, 4)
 	}
 	exhaustive := int64(0)
